@@ -1,4 +1,4 @@
-"""Translator: nixio/cmd/upgrade.py, nixio/dimensions.py  ->  NixModel/Generated/UpgradeShape.lean      (property C18)
+"""Translator: nixio/cmd/upgrade.py, nixio/dimensions.py, nixio/property.py  ->  NixModel/Generated/UpgradeShape.lean      (property C18)
 
 Parses the source with `ast` (never imports it) and renders the *shape* of the upgrade as Lean data over the
 vocabulary of `NixModel/Pure/UpgradeShape.lean`:
@@ -776,6 +776,50 @@ def render_readers(rules, default, srcs):
     return "\n".join(out) + "\n"
 
 
+# ------------------------------------------------------------------------------------------------
+# readers of property values (nixio/property.py): the layout is chosen by the FILE's version
+
+PROP_SOURCE = os.path.join("nixio", "property.py")
+
+
+def _version_switch(fn, where):
+    """the tuple `t` of the one test `filever < t` in a getter whose `filever` is the header version"""
+    bound = [n for n in ast.walk(fn) if isinstance(n, ast.Assign) and len(n.targets) == 1
+             and _is_name(n.targets[0], "filever")]
+    if len(bound) != 1 or "attrs['version']" not in ast.unparse(bound[0].value).replace('"', "'"):
+        raise ExtractError("%s: `filever` is not read once from the header's version attribute" % where)
+    tests = [n for n in ast.walk(fn) if isinstance(n, ast.Compare) and _is_name(n.left, "filever")]
+    if len(tests) != 1 or len(tests[0].ops) != 1 or not isinstance(tests[0].ops[0], ast.Lt):
+        raise ExtractError("%s: expected exactly one test `filever < (...)`" % where)
+    t = tests[0].comparators[0]
+    if not (isinstance(t, ast.Tuple) and t.elts and all(_int_lit(e) is not None and _int_lit(e) >= 0 for e in t.elts)):
+        raise ExtractError("%s line %d: version bound %s is not a tuple of numbers" % (where, t.lineno, ast.unparse(t)))
+    ifs = [n for n in ast.walk(fn) if isinstance(n, ast.If) and n.test is tests[0]]
+    if len(ifs) != 1:
+        raise ExtractError("%s: the version test is not the test of an `if`" % where)
+    return [_int_lit(e) for e in t.elts], ifs[0]
+
+
+def prop_readers_shape(repo):
+    mod = ast.parse(open(os.path.join(repo, PROP_SOURCE), encoding="utf-8").read())
+    cls = None
+    for n in mod.body:
+        if isinstance(n, ast.ClassDef) and n.name == "Property":
+            cls = n
+    if cls is None:
+        raise ExtractError("nixio/property.py has no class Property")
+    bound, ifn = _version_switch(_prop_getter(cls, "values"), "Property.values")
+    if "self._read_old_values()" not in " ; ".join(ast.unparse(x) for x in ifn.body):
+        raise ExtractError("Property.values: below the version bound the values are not read by _read_old_values")
+    old = _func(cls.body, "_read_old_values", "class Property")
+    fields = {n.slice.value for n in ast.walk(old) if isinstance(n, ast.Subscript) and isinstance(n.slice, ast.Constant)
+              and isinstance(n.slice.value, str)}
+    if fields != {"value"}:
+        raise ExtractError("Property._read_old_values reads the fields %s, expected only 'value'" % sorted(fields))
+    ubound, _ = _version_switch(_prop_getter(cls, "uncertainty"), "Property.uncertainty")
+    return bound, ubound
+
+
 def shape(repo):
     path = os.path.join(repo, SOURCE)
     mod = ast.parse(open(path, encoding="utf-8").read())
@@ -787,7 +831,7 @@ def shape(repo):
     return {"op": op, "order": order, "process": process_shape(mod), "id_outer": outer, "id_recheck": inner,
             "bump": bump_shape(mod), "refusal": refusal, "pfind": pfind, "precheck": precheck, "pops": pops, "rules": rules,
             "dfind": dfind, "dskip": dskip, "dops": dops, "readers": readers_shape(repo),
-            "dlink": dlink, "main_args": main_args, "cparams": cparams, "cdataset": cdataset, "cwrites": cwrites,
+            "dlink": dlink, "prop_readers": prop_readers_shape(repo), "main_args": main_args, "cparams": cparams, "cdataset": cdataset, "cwrites": cwrites,
             "id_valid": valid_id_shape(mod), "version_raw": version_shape(mod), "entry": entry_shape(mod)}
 
 
@@ -851,7 +895,12 @@ def render(sh):
         "/-- `file_upgrade`: what runs inside `try` (an exception makes it return False, the normal end True) -/\n"
         "def entryOps : List String := [%s]\n"
         "/-- `update_alias_dims`: attributes written on the new link group and their values -/\n"
-        "def linkAttrs : List (String × LinkVal) := [%s]\n\n"
+        "def linkAttrs : List (String × LinkVal) := [%s]\n"
+        "/-- `Property.values` (nixio/property.py): a file whose header version is below this is read through the "
+        "old-layout reader (`_read_old_values`: field `value` of every row), every other file through the plain one -/\n"
+        "def valuesOldBelow : List Nat := [%s]\n"
+        "/-- `Property.uncertainty`: the same switch -/\n"
+        "def uncertaintyOldBelow : List Nat := [%s]\n\n"
         "end Nix.Upgrade.Gen\n" % (
             sh["op"], order, sh["process"], lean_bool(sh["id_outer"]), lean_bool(sh["id_recheck"]),
             lean_bool(sh["bump"]), sh["pfind"], sh["precheck"], ", ".join(lean_str(o) for o in sh["pops"]),
@@ -859,7 +908,8 @@ def render(sh):
             render_readers(*sh["readers"]),
             ", ".join(sh["main_args"]), ", ".join(sh["cparams"]), ", ".join(sh["cdataset"]),
             ",\n  ".join(sh["cwrites"]), sh["id_valid"], lean_bool(sh["version_raw"]),
-            ", ".join(lean_str(o) for o in sh["entry"]), ", ".join(sh["dlink"])))
+            ", ".join(lean_str(o) for o in sh["entry"]), ", ".join(sh["dlink"]),
+            ", ".join(str(x) for x in sh["prop_readers"][0]), ", ".join(str(x) for x in sh["prop_readers"][1])))
 
 
 def extract(repo):
